@@ -103,6 +103,8 @@ def classify_compile_error(program, e: L.CompileError):
 def case_findings(program: G.Program, ex: L.Exam):
     """[(key, what)]"""
     out = []
+    if ex.hung:
+        return out  # counted as inconclusive by the caller
     if ex.compile_error is not None:
         e = ex.compile_error
         cls = classify_compile_error(program, e)
@@ -195,8 +197,8 @@ def run_case(E: L.Examiner, program: G.Program, res: Result = None, fresh_py=Tru
     fnd = case_findings(program, ex)
     if res is not None:
         res.count("programs")
-        res.count("compiled" if ex.compile_error is None else "compile-failed")
-        if ex.compile_error is None:
+        res.count("compile-did-not-return" if ex.hung else "compiled" if ex.compile_error is None else "compile-failed")
+        if ex.compile_error is None and not ex.hung:
             res.count("python-fresh-interpreter" if fresh_py is True else "python-forked-pristine-interpreter")
             res.count("c-header-compiled" if ex.c_syntax is not None else "c-header-not-standalone")
             res.count("matlab-with-core" if program.import_coredefs else "matlab-without-core")
@@ -208,7 +210,7 @@ def run_case(E: L.Examiner, program: G.Program, res: Result = None, fresh_py=Tru
                                      "multi-path", "cycle", "respell", "signal", "needs-padding"):
                 res.count("class/" + c)
         nt, sh = shape_of(program)
-        if nt and ex.compile_error is None:
+        if nt and ex.compile_error is None and not ex.hung:
             res.shape(sh)
             res.count("nontrivial")
         if fnd:
